@@ -447,6 +447,9 @@ private:
                 return false;
             }
             if (m_unbuf_recv_cv.wait(m_unbuf_mutex, timeout) < 0 && errno == ETIMEDOUT) {
+                // a try_send() may have placed a value for us (it saw a waiting receiver
+                // and has already reported success) while our timeout was expiring
+                if (m_handoff_ready) break;
                 return false;
             }
         }
